@@ -22,6 +22,9 @@ import vlib
 CRATE = os.path.join(vlib.HARNESS_DIR, "utilsmiri")
 ASAN_BIN = os.path.join(vlib.HARNESS_DIR, "target", "utilsmiri", "x86_64-unknown-linux-gnu", "debug", "utilsmiri")
 NIGHTLY = os.environ.get("VERIF_NIGHTLY", "nightly")
+MAX_JOBS = max(1, int(os.environ.get("VERIF_JOBS", "4")))     # replay processes running at the same time
+TLC_WORKERS = max(1, min(2, int(os.environ.get("VERIF_TLC_WORKERS", "2"))))
+TLC_XMX = os.environ.get("VERIF_TLC_XMX", "3g")
 MIRI_MODES = {
     "miri-tb": "-Zmiri-disable-isolation -Zmiri-tree-borrows",
     "miri-sb": "-Zmiri-disable-isolation",
@@ -116,6 +119,10 @@ def classify(channel, rc, err, fatal_only=False):
         # the standard library's own debug check of an unsafe function's precondition (non-unwinding panic)
         what = m.group(1)
         return ("misaligned" if "aligned" in what else "precondition"), "Rust UB check: " + what[:200]
+    m = re.search(r"misaligned pointer dereference: ([^\n]*)", err)
+    if m:
+        # rustc's debug check inserted at raw-pointer dereferences (non-unwinding panic)
+        return "misaligned", "Rust debug check: misaligned pointer dereference: " + m.group(1)[:120]
     if "free():" in err or "malloc" in err or "corrupted" in err:
         return "heap-corruption", err.strip().splitlines()[-1][:200] if err.strip() else "abort"
     if rc is not None and rc < 0:
@@ -204,14 +211,16 @@ def _assemble(case, lines):
     return obs, False
 
 
-def run(channel, cases, wd, name, jobs=8, case_timeout=10.0, startup=30.0):
-    """returns (observations in case order, stats)"""
+def run(channel, cases, wd, name, jobs=8, case_timeout=10.0, startup=30.0, isolate=False):
+    """returns (observations in case order, stats). isolate: one process per case (for replays that may corrupt the
+    heap of their own process without being stopped by a sanitizer)"""
     cmd, cwd, env = command(channel)
     n = len(cases)
     if n == 0:
         return [], {"processes": 0, "wall_s": 0.0}
     jobs = max(1, min(jobs, n))
     shards = [list(range(j, n, jobs)) for j in range(jobs)]
+    gate = threading.Semaphore(MAX_JOBS)      # more shards than processes allowed at once: they take turns
     results = [None] * n
     stats = {"processes": 0}
     errors = []
@@ -230,12 +239,13 @@ def run(channel, cases, wd, name, jobs=8, case_timeout=10.0, startup=30.0):
         guard = 0
         while start < len(idxs):
             guard += 1
-            if guard > len(idxs) + 3:
+            if guard > 2 * len(idxs) + 3:
                 raise vlib.ToolError("%s: no progress on shard %d" % (channel, j))
             tmo = startup + case_timeout * (len(idxs) - start)
             t0 = time.time()
             try:
-                p = subprocess.run(cmd + [cpath, opath, "--from", str(start)], cwd=cwd, env=env,
+                p = subprocess.run(cmd + [cpath, opath, "--from", str(start)] + (["--count", "1"] if isolate else []),
+                                   cwd=cwd, env=env,
                                    stdout=subprocess.PIPE, stderr=subprocess.PIPE, text=True, timeout=tmo,
                                    errors="replace")
                 rc, err, timed_out = p.returncode, p.stderr, False
@@ -265,6 +275,8 @@ def run(channel, cases, wd, name, jobs=8, case_timeout=10.0, startup=30.0):
                     pos += 1
                     continue
                 # this case did not finish: the process died (or timed out) inside it
+                if isolate and pos > start:
+                    break            # the single case of this process is done; the next one gets its own process
                 if rc == 0 and not timed_out:
                     raise vlib.ToolError("%s: replay exited normally but case %s is incomplete" % (channel, case["id"]))
                 if obs.get("status") == "ub":
@@ -284,14 +296,15 @@ def run(channel, cases, wd, name, jobs=8, case_timeout=10.0, startup=30.0):
                 stopped = True
                 break
             start = pos
-            if not stopped and start < len(idxs):
+            if not stopped and start < len(idxs) and not isolate:
                 raise vlib.ToolError("%s: shard %d stopped without a culprit" % (channel, j))
 
     def guarded(j):
-        try:
-            work(j)
-        except Exception as e:  # noqa
-            errors.append(e)
+        with gate:
+            try:
+                work(j)
+            except Exception as e:  # noqa
+                errors.append(e)
 
     t0 = time.time()
     threads = [threading.Thread(target=guarded, args=(j,)) for j in range(jobs)]
@@ -323,3 +336,22 @@ def decode_tlc_lines(path):
             v = json.loads(line)
             res.append(json.loads(v) if isinstance(v, str) else v)
     return res
+
+
+def install_replay(prop, fn):
+    """`./check Cxx --replay file` goes through vlib.replay, which only knows program cases (harness exec mode);
+    histories of this family are re-run by the property's own replay function instead"""
+    orig = vlib.replay
+
+    def patched(mod, p, path):
+        if p == prop:
+            return fn(p, path)
+        return orig(mod, p, path)
+    vlib.replay = patched
+
+
+def prepare(channel, wd):
+    if channel == "asan":
+        build_asan()
+    elif channel in MIRI_MODES:
+        build_miri(wd)
